@@ -120,6 +120,9 @@ def hyp_cases(draw, tier):
 RULE_ROUND8 = ' One generated forest in 20 (60 in the thorough tier) is a BIG one (gen.big_specs: a child list of 11..300 nodes, that many clones of one data object, more than 256 nodes), with node references aimed at notable positions of the long child lists. (width <= 66). The node_id lookups (no removed node, no missing node) are evaluated here as well. Part python-O: the histories once more with PYTHONOPTIMIZE=1. Flavour int holds 2**62+11, -1 and (as new data only) its hash twin -2; DictWrapper around a hashable dict subclass.'
 RULE = RULE + RULE_ROUND8
 
+RULE_ROUND9 = ' Every explicit node_id (also one passed as str) must be found under its int; both trees of a history carry the same explicit node_ids in a third of the cases.'
+RULE = RULE + RULE_ROUND9
+
 PARTS = [
     Part("histories", run, strategy=hyp_cases, n={"quick": 1500, "thorough": 200000}),
     optimized_part("C02", ['histories']),
